@@ -6,7 +6,8 @@ from .. import gen, hooks, insitu, oracles, rng as vrng
 
 PID = "C14"
 LEVEL = "exploration"
-RULE = ("histories of 1..6 batches of 1..8 fresh designs (n=1..4, 1..3 objectives, random tolerances) through Algorithm.evaluate "
+RULE = ("histories of 1..6 batches of 1..8 fresh designs (n=1..4, 1..3 objectives, random tolerances; replicated designs within a "
+        "batch; scripted transient failures) through Algorithm.evaluate "
         "with the worst-case and the gradient evaluator, plus NSGA-II / eps-MOEA / sweep runs with those evaluators; after EVERY "
         "batch all designs evaluated so far are re-checked: neighbour set, 1+2n (resp. 1+n) objective calls, sensitivity sum / "
         "forward difference, cost-vector length. non-trivial = history with >=2 batches (earlier designs could be re-processed) "
